@@ -72,6 +72,35 @@ pub fn extra_atoms() -> Vec<Atom> {
         extra("PN", "empty-strs", P::Strs(C::new())),
         extra("UV", "empty-u64", P::U64(C::new())),
     ];
+    // an empty value among several values (PS3.5 6.4: `A\\B`, `\\B`, `A\\` are all legal), values made
+    // only of padding, for every string VR that can be multi-valued; tokens fit the VR
+    for (vr, a, b) in [
+        ("AE", "A", "B"),
+        ("AS", "012Y", "034M"),
+        ("CS", "A", "B"),
+        ("DA", "20200101", "19991231"),
+        ("DS", "1.5", "2"),
+        ("DT", "2020", "202101"),
+        ("IS", "1", "23"),
+        ("LO", "A", "B"),
+        ("PN", "A^B", "C"),
+        ("SH", "A", "B"),
+        ("TM", "12", "1230"),
+        ("UC", "A", "B"),
+        ("UI", "1.2", "3.4"),
+    ] {
+        out.push(extra(vr, "multi-a-empty", strs(&[a, ""])));
+        out.push(extra(vr, "multi-empty-b", strs(&["", b])));
+        out.push(extra(vr, "multi-a-empty-b", strs(&[a, "", b])));
+        out.push(extra(vr, "multi-empty-empty", strs(&["", ""])));
+        out.push(extra(vr, "pad-only", P::Str(" ".into())));
+        out.push(extra(vr, "zero-length-str", P::Str(String::new())));
+    }
+    // person names with empty component groups / components
+    out.push(extra("PN", "empty-ideographic", P::Str("A==B".into())));
+    out.push(extra("PN", "empty-alphabetic", P::Str("=A".into())));
+    out.push(extra("PN", "empty-components", P::Str("A^^^^".into())));
+    out.push(extra("PN", "multi-empty-groups", strs(&["A==B", "", "=C"])));
     // the same values inside a private and an unknown attribute (VR kept in JSON)
     let (p, u) = (out[0].clone(), out[11].clone());
     out.push(Atom { tag: (0x0009, 0x1007), tclass: "private", ..p });
